@@ -332,6 +332,7 @@ def main():
         chk.violation("model build failed", {"theorem_or_correspondence": "coq/theories/C05 build", "log": blog[-1500:]}, True)
         chk.finish()
     hist = collections.Counter()
+    tlog = lambda w: log("[C05 %6.1fs] %s" % (time.time() - chk.t0, w))
     base_ctxs = [{"l": [1, 2, 3], "c": True, "t": True, "n": 3, "m": 2, "s": "a<b", "k": [1, 2], "v": "<"},
                  {"l": [1, 2, 3], "c": False, "t": True, "n": 0, "m": -2, "s": "", "k": [], "v": "<"},
                  {"l": [], "c": True, "t": False, "n": 7, "m": 10, "s": "Q'", "k": [1], "v": "<"}]
@@ -398,6 +399,7 @@ def main():
             k += n
         for name, src, ctx, refs in fixture_cases():
             add("fixture:" + name, src, ctxs=[ctx] if ctx is not None else [], aux=refs, sentinel=None, main=name, dynamic=False)
+    tlog("templates: %d" % len(T))
     # ---- static: verified checker on the real instruction streams ----
     reqs, owners = [], []
     aux_seen = {}
@@ -461,6 +463,7 @@ def main():
     hist["region_analyses"] = sum(s[2] for s in stats if len(s) == 3)
     hist["streams_with_recursive_loop_and_else"] = sum(
         1 for _, _, ins in streams if any(i["op"] == "PushDidNotIterate" for i in ins) and any(i["op"] == "PushLoop" and i["arg"] & 2 for i in ins))
+    tlog("static done: %d streams, %d rejected" % (len(streams), len(rejected)))
     # ---- dynamic: render, sentinel must arrive, expected output, no crash ----
     # what the reference interpreter (Lang/Interp.v, extracted for C03) renders for the generated programs without
     # recursion calls: scope, capture and auto-escape state after every construct show in the rest of the output
@@ -511,6 +514,7 @@ def main():
                     hist["expected_error_agree"] += 1
             else:
                 dyn_bad.append((ti, ci, rel, "crash", json.dumps(r)[:200]))
+    tlog("dynamic done: %d renders x2, %d failures" % (len(dyn_reqs), len(dyn_bad)))
     # ---- trace: every activation of eval_impl replayed through the abstract machine ----
     tr_reqs, tr_idx = [], []
     for ti, t in enumerate(T):
@@ -526,6 +530,7 @@ def main():
         hist["trace_hook_missing"] = 1
     else:
         tres = pmap(lambda r: run_json([bin_path("c05_trace")], r, env=env), tr_reqs)
+        tlog("traced renders done: %d" % len(tres))
         tcases, tmeta = [], []
         for (ti, ci), r in zip(tr_idx, tres):
             if not r.get("hook"):
@@ -552,7 +557,9 @@ def main():
                             hist["trace_recursion_entries_" + code[a[0]]["op"]] += 1
                         if code[a[0]]["op"] == "PopLoopFrame" and b[0] != a[0] + 1:
                             hist["trace_recursion_returns"] += 1
+        tlog("trace cases built: %d" % len(tcases))
         tver = pmap(lambda c: run_model("C05", "c05-trace", c), tcases)
+        tlog("trace replay done")
         hist["trace_activations"] = len(tcases)
         for meta, v in zip(tmeta, tver):
             if v[:1] == [1]:
@@ -570,6 +577,7 @@ def main():
                 hist["trace_replayed_ok"] += 1
             else:
                 trace_bad.append((meta, v))
+    tlog("trace done: %d failures" % len(trace_bad))
     # ---- evidence ----
     nontriv = set()
     for ti, sn, ins in streams:
